@@ -46,6 +46,7 @@ type Choices struct {
 	UPFIP       [][]byte
 	AmbrDL, AmbrUL int64
 	QosRulesLen int
+	AcceptOpt   uint // optional IEs of PDU SESSION ESTABLISHMENT ACCEPT in front of the PDU address: bit0 5GSM cause
 }
 
 func DefaultChoices() Choices {
@@ -951,6 +952,9 @@ func (a *AMF) setupRequest(u *UE) []byte {
 	acc := []byte{0x2e, u.PSI, u.PTI, 0xc2, 0x11, byte(len(rules) >> 8), byte(len(rules))}
 	acc = append(acc, rules...)
 	acc = append(acc, 0x06, 0x06, 0x03, 0xe8, 0x06, 0x03, 0xe8) // session AMBR 1000 Mbps
+	if a.Ch.AcceptOpt&1 != 0 {
+		acc = append(acc, 0x59, 0x32) // 5GSM cause #50 "PDU session type IPv4 only allowed"
+	}
 	acc = append(acc, 0x29, 0x05, 0x01)
 	acc = append(acc, u.UEIP...)
 	acc = append(acc, 0x22, 0x04, a.Cfg.SST, 1, 2, 3)
